@@ -194,6 +194,9 @@ pub enum ClientOp {
     },
     UnknownNotification {
         method: String,
+        /// params of the notification (`{}` when absent); e.g. `{"id": 5}` for `$/cancelRequest`
+        #[serde(default, skip_serializing_if = "Option::is_none")]
+        params: Option<serde_json::Value>,
     },
     Shutdown {
         id: i32,
@@ -225,7 +228,7 @@ impl ClientOp {
             }
             ClientOp::TextProbe { id, uri } => format!("text#{id}({uri})"),
             ClientOp::UnknownRequest { id, method } => format!("unknownreq#{id}({method})"),
-            ClientOp::UnknownNotification { method } => format!("unknownnote({method})"),
+            ClientOp::UnknownNotification { method, .. } => format!("unknownnote({method})"),
             ClientOp::Shutdown { id } => format!("shutdown#{id}"),
             ClientOp::Exit => "exit".into(),
         }
